@@ -244,6 +244,9 @@ macro_rules! impl_normal {
 					return Err(NormalError::BadVariance);
 				}
 				let std_dev = cv * mean;
+				if !std_dev.is_finite() {
+					return Err(NormalError::BadVariance);
+				}
 				Ok(Normal { mean, std_dev })
 			}
 
